@@ -341,3 +341,19 @@ Proof.
     inversion Pa; subst. inversion Pb; subst.
     rewrite (Hx y), (IHxs ys); auto.
 Qed.
+
+(* ---------------------------------------------------------------- patch is idempotent *)
+Lemma floor1000_floor us : floor1000 (floor1000 us) = floor1000 us.
+Proof. unfold floor1000. rewrite Z.div_mul by lia. reflexivity. Qed.
+
+Lemma patch_idem : forall v, patch (patch v) = patch v.
+Proof.
+  induction v as [|x|z|e|s|us tz|n|fs IH|xs IH] using value_ind2; try reflexivity.
+  - destruct tz as [m|]; simpl; rewrite floor1000_floor; reflexivity.
+  - rewrite !patch_doc. f_equal.
+    induction IH as [|[k v] fs Hv _ IHfs]; [reflexivity|].
+    simpl in *. unfold patch_fld at 1. simpl. rewrite Hv. f_equal. exact IHfs.
+  - rewrite !patch_arr. f_equal.
+    induction IH as [|x xs Hx _ IHxs]; [reflexivity|].
+    simpl. rewrite Hx. f_equal. exact IHxs.
+Qed.
